@@ -202,6 +202,12 @@ def run(ctx):
         srcs.append((f"version 3.0\nqubit[{nq}] q\nRx q[0]\n", False))
         srcs.append((f"version 3.0\nqubit[{nq}] q\nH q[0], q[0]\n", False))
         srcs.append((f"version 3.0\nqubit[{nq}] q\nNope q[0]\n", False))
+        srcs.append((f"version 3.0\nqubit[{nq + 1}] q\nH q[{nq}]\nCNOT q[0], q[0]\n", False))      # refused by OpenSquirrel after H was converted
+        srcs.append((f"version 3.0\nqubit[{nq}] q\nX q[0]\n", True))
+    from opensquirrel.parser.libqasm.parser import Parser
+
+    reused = Parser()
+    rng.shuffle(srcs)
     for text, ok in srcs:
         case = {"text": text}
         ctx.seen(case)
@@ -210,6 +216,17 @@ def run(ctx):
             accepted = True
         except Exception:  # noqa: BLE001
             accepted = False
+        # refusal must be clean: the same Parser object, used for accepted and refused programs alike, keeps giving
+        # exactly what a fresh parser gives
+        try:
+            c_re = reused.circuit_from_string(text)
+            same = accepted and (c_re.qubit_register_size, c_re.bit_register_size) == (c.qubit_register_size, c.bit_register_size) \
+                and not ser.struct_diff(implrun.canon_post(c_re.ir.statements), implrun.canon_post(c.ir.statements), 0)
+        except Exception:  # noqa: BLE001
+            same = not accepted
+        if not same:
+            ctx.oracle_fail("parser", case, "a Parser object that earlier refused or parsed other programs behaves differently from a fresh one", None)
+            continue
         if accepted and not ok:
             ctx.oracle_fail("parser", case, "ill-formed program accepted", None)
         elif accepted:
